@@ -4,6 +4,11 @@ from . import common
 
 PROFILE = {'name': 'c08', 'max_clients': 6, 'hostile_masks': False, 'mp_rate': 0.5, 'weights': {'connect': 6, 'end': 2, 'quit': 1, 'join': 12, 'part': 2, 'kick': 7, 'topic': 2, 'invite': 2, 'cmode': 45, 'umode': 2, 'nick': 2, 'privmsg': 3, 'notice': 2, 'away': 1, 'oper': 1, 'kill': 0.5, 'wallops': 0.5, 'stats': 0.3, 'die': 0.1, 'squit': 0.1, 'names': 3, 'who': 2, 'whois': 1, 'list': 0.5, 'lusers': 0.5, 'ison': 0.3, 'userhost': 0.3, 'whowas': 0.3, 'chanlist': 4, 'cquery': 4}, 'mode_weights': {'q': 4, 'a': 4, 'o': 6, 'h': 6, 'v': 5}}
 
+# two of five episodes run with a channel whose ban / exception / invite-exception lists and staff come from the
+# configuration (lists that no MODE ever set are edited, listed and enforced like any other)
+from .. import e1 as _e1
+PROFILE["cfg_variants"] = [{}, {}, {}, _e1.COMMON_VARIANTS[-2], _e1.COMMON_VARIANTS[-1]]
+
 
 def run(ctx):
     res = Result("C08")
